@@ -207,7 +207,10 @@ class StreamLoopSpec(LoopSpec):
         if not (isinstance(iterable, Obj) and iterable.cls in ('BytesIO', 'StringIO', 'calliter')):
             raise Unsupported('loop contract %s expects a chunk stream, got %r' % (self.name, iterable))
         content, ty = stream_content(it, iterable)
-        it.env.use('chunk iteration: concatenation of the yielded chunks equals the stream content')
+        # an iterator that was partly consumed by an earlier loop only yields what is left
+        if 'remaining' in iterable.fields:
+            content = iterable.fields['remaining']
+        it.env.use('chunk iteration: concatenation of the yielded chunks equals the (remaining) stream content')
         sort = content.sort()
         st.check(self.name + '.inv-entry', 'inv-entry', self.inv(it, fr, z3.Empty(sort)))
         may_raise = iterable.cls == 'calliter'
@@ -223,6 +226,7 @@ class StreamLoopSpec(LoopSpec):
             st.assume(z3.Length(chunk) > 0)
             st.assume(self.inv(it, fr, consumed))
             it.assign(s.target, SV(ty, chunk), fr)
+            iterable.fields['remaining'] = rest      # what a later loop over the same iterator would still get
             self._body(it, s, fr, z3.Concat(consumed, chunk))
             return
         if d == 2:
@@ -230,9 +234,11 @@ class StreamLoopSpec(LoopSpec):
             consumed = st.fresh('consumed', sort)
             st.assume(z3.PrefixOf(consumed, content))
             st.assume(self.inv(it, fr, consumed))
+            iterable.fields['remaining'] = st.fresh('rest_after_fault', sort)
             st.effect('FAULT', op='stream.read')
             from .engine import raise_py
             raise_py('OSError', 'stream read failed')
         self.havoc(it, s, fr)
         st.assume(self.inv(it, fr, content))
+        iterable.fields['remaining'] = z3.Empty(sort)
         it.exec_block(s.orelse, fr)
